@@ -159,3 +159,30 @@ Proof.
   { apply Z.mul_le_mono_pos_r with (p := p_S p * p_S p); assumption. }
   destruct L3 as [L3|L3]; nia.
 Qed.
+
+(** ------------------------------------------------------------------ C04 over histories: once initialised, the pool
+    can never be emptied — after ANY history the supply is at least the locked floor, both reserves are positive and
+    the pair itself still holds the floor. *)
+Lemma aget_le_asum : forall l a, NoDup (akeys l) -> all_nonneg l -> aget l a <= asum l.
+Proof.
+  induction l as [|[k v] t IH]; intros a ND NN; simpl; [lia|].
+  inversion ND; subst. inversion NN; subst. simpl in *.
+  destruct (k =? a).
+  - assert (0 <= asum t).
+    { clear - H4. induction t as [|[k' v'] t' IH']; simpl; [lia|]. inversion H4; subst. simpl in *.
+      specialize (IH' H2). lia. }
+    lia.
+  - specialize (IH a H2 H4). lia.
+Qed.
+
+Lemma run_never_emptied ops p : PairInv p -> 0 < p_S p ->
+  MINIMUM_LIQUIDITY <= p_S (run p ops) /\ 0 < p_r1 (run p ops) /\ 0 < p_r2 (run p ops) /\
+  MINIMUM_LIQUIDITY <= lp_of (run p ops) SELF.
+Proof.
+  intros Hinv HS. destruct (run_K ops p Hinv HS) as (HS' & _).
+  pose proof (run_inv ops p Hinv) as I'.
+  destruct (i_pos _ I' HS') as (P1 & P2 & G).
+  pose proof (aget_le_asum (p_lp (run p ops)) SELF (i_nd _ I') (i_nn _ I')) as Hge.
+  rewrite <- (i_S _ I') in Hge. unfold lp_of in G |- *.
+  repeat split; try assumption. lia.
+Qed.
